@@ -62,11 +62,18 @@ def offered(lang):
     return [x for x in f if x in EXECUTABLE]
 
 
-def render(batch, fmt, lang):
+def render(batch, fmt, lang, default_stack=False):
+    """default_stack=True: run the printer under Python's default recursion limit, as the program does (the
+    harness itself raises the limit for its own deep recursions)"""
+    import sys
     dlang.set_global_language_to(lang)
+    old = sys.getrecursionlimit()
+    if default_stack:
+        sys.setrecursionlimit(1000)
     try:
         return to_string(batch, format=fmt)
     finally:
+        sys.setrecursionlimit(old)
         dlang.set_global_language_to('en')
 
 
